@@ -563,6 +563,20 @@ func (x *Exec) havocCall(st *State, fr *Frame, l *loopInfo, call ssa.CallInstruc
 		return // interface methods and closures: effects are described by their intrinsics/contracts
 	}
 	if _, isIntr := x.intrinsicFor(callee); isIntr {
+		// decoding functions write through the pointers they are handed (wrapped in interfaces, possibly in
+		// a variadic slice): a target that lives outside the loop is changed by every iteration
+		if writingIntrinsics[calleeName(callee)] {
+			for _, a := range common.Args {
+				for _, root := range decodeTargets(a) {
+					if _, isPtr := root.Type().Underlying().(*types.Pointer); isPtr && !definedIn(l, root) {
+						if os.Getenv("GOVC_DEBUG_LOOPS") != "" {
+							fmt.Fprintf(os.Stderr, "havoc of %s written by %s in loop %d\n", root.Name(), callee.Name(), l.ord)
+						}
+						x.havocTarget(st, fr, l, root, tag)
+					}
+				}
+			}
+		}
 		return
 	}
 	if !x.prog.inRepo(callee) || callee.Blocks == nil {
@@ -587,6 +601,45 @@ func (x *Exec) havocCall(st *State, fr *Frame, l *loopInfo, call ssa.CallInstruc
 			x.havocValueTarget(st, v, a.Type(), a, nil, tag)
 		}
 	}
+}
+
+var writingIntrinsics = map[string]bool{
+	"encoding/json.Unmarshal":                    true,
+	"(*encoding/json.Decoder).Decode":            true,
+	repoModule + "/internal/util.UnmarshalChain": true,
+	"(*database/sql.Rows).Scan":                  true,
+	"(*database/sql.Row).Scan":                   true,
+	"errors.As":                                  true,
+}
+
+// decodeTargets: the pointer values an argument of a decoding call carries: the operand of a MakeInterface,
+// or, for a variadic argument, the operands of the MakeInterface values stored into the slice's array.
+func decodeTargets(a ssa.Value) []ssa.Value {
+	switch v := a.(type) {
+	case *ssa.MakeInterface:
+		return []ssa.Value{v.X}
+	case *ssa.Slice:
+		al, ok := v.X.(*ssa.Alloc)
+		if !ok || al.Referrers() == nil {
+			return nil
+		}
+		var out []ssa.Value
+		for _, r := range *al.Referrers() {
+			ia, ok := r.(*ssa.IndexAddr)
+			if !ok || ia.Referrers() == nil {
+				continue
+			}
+			for _, rr := range *ia.Referrers() {
+				if stI, ok := rr.(*ssa.Store); ok {
+					if mi, ok := stI.Val.(*ssa.MakeInterface); ok {
+						out = append(out, mi.X)
+					}
+				}
+			}
+		}
+		return out
+	}
+	return nil
 }
 
 func writesThroughParams(fn *ssa.Function, depth int, seen map[*ssa.Function]bool) bool {
@@ -801,6 +854,29 @@ func (x *Exec) siteAsserts(st *State, fr *Frame, kind, arg string, bind map[stri
 // condition (no break, return, goto or panic-free early exit out of the body): every element of the
 // ranged collection is processed.
 func (x *Exec) loopCompleteObligations(st *State, fr *Frame, ct *Contract) {
+	// a site assertion or an invariant that names a loop the function no longer has would silently
+	// assert nothing: that is a contract that cannot be evaluated against the current source
+	hasLoop := func(n int) bool {
+		for _, c := range x.loopsOf(fr.fn) {
+			if c.ord == n {
+				return true
+			}
+		}
+		return false
+	}
+	for _, d := range ct.Directives["site"] {
+		f := strings.Fields(d)
+		if len(f) >= 2 && f[0] == "loop" {
+			if n, err := strconv.Atoi(f[1]); err == nil && !hasLoop(n) {
+				x.oblige(st, "contract", fmt.Sprintf("contract clause can be evaluated against the current source: site assertion names loop %d, which the function does not have: %s", n, d), TFalse, fr.fn.Pos(), ct.allProps())
+			}
+		}
+	}
+	for _, cl := range ct.Invariants {
+		if !hasLoop(cl.Loop) {
+			x.oblige(st, "contract", fmt.Sprintf("contract clause can be evaluated against the current source: invariant names loop %d, which the function does not have: %s", cl.Loop, cl.Text), TFalse, fr.fn.Pos(), ct.allProps())
+		}
+	}
 	for _, d := range ct.Directives["loop-complete"] {
 		n, err := strconv.Atoi(strings.TrimSpace(d))
 		if err != nil {
